@@ -107,7 +107,8 @@ PROPS = {
                       "into_openings for every hash function that is a function (cheap mixing hasher), on 2- and 4-leaf "
                       "trees with symbolic digests; batch routes on enumerated concrete index sequences.",
         "level_note": "Bounded: trees of 2 and 4 leaves, listed index sequences. BTree model as for C19. The parallel "
-                      "(rayon) build is not covered: Kani has no thread support.",
+                      "(rayon) build is not covered: Kani has no thread support. from_single_proofs / into_openings "
+                      "equality with the single openings is NOT decided in the quick tier (CBMC does not terminate on them).",
     },
     "C03": {
         "level": "model_checking",
